@@ -50,7 +50,7 @@ pub fn run(ctx: &Ctx) -> Report {
             let wwords: Vec<WWord> = if ctx.tier == Tier::Thorough && !long { WWord::ALL.to_vec() } else { vec![WWord::ALL[ci % 5], WWord::ALL[(ci / 5 + 2) % 5]] };
             for (wi, ww) in wwords.iter().enumerate() {
                 let offs = offsets_for(64, ctx.tier, &mut rng);
-                let noffs = if long { 1 } else { ctx.pick(1, 5, offs.len().min(24)) };
+                let noffs = if long { 1 } else { ctx.pick(1, 5, offs.len().min(16)) };
                 for oi in 0..noffs {
                     // offsets relative to the *reader* word vary too: take them from a per-reader list below
                     let wop = wms[(ci + oi + wi) % wms.len()];
@@ -79,7 +79,7 @@ pub fn run(ctx: &Ctx) -> Report {
                             }
                             let rcfg = RCfg { e, kind, be };
                             read_case("C03", &case, &wr, rcfg, *rop, rep, (ci + mi) as u8);
-                            if !long && (ctx.tier == Tier::Thorough || (ci + mi + oi) % 2 == 0) {
+                            if !long && (ci + mi + oi) % 2 == 0 {
                                 let sbe = RBackend::STRICT[(ci + oi + mi + w) % RBackend::STRICT.len()];
                                 read_case_tail(&case, &wr, RCfg { e, kind, be: sbe }, *rop, rep, (ci + mi + 1) as u8);
                             }
